@@ -165,6 +165,29 @@ def _conf(ctx, tpath, tag):
         ctx.notes.append("Conf-mode validation ended with %s (see %s)" % (res["violated"], res["outfile"]))
 
 
+def _selftest(ctx, tpath):
+    """DESIGN 2.7: a corrupted good trace must be rejected (Obs), a trace with a dropped event must not be accepted (Conf)."""
+    rows = [r for ch in vlib.split_traces(vlib.read_ndjson(tpath))[:2] for r in ch]
+    # (a) one provider object's used CU off by one in the first barrier
+    bad = vlib.json.loads(vlib.json.dumps(rows))
+    b = next(r for r in bad if r["ev"] == "barrier")
+    b["objs"][0]["used"] += 1
+    pa = os.path.join(ctx.work, "selftest_a.ndjson")
+    vlib.write_ndjson(pa, bad)
+    ra = vlib.tlc_trace(ctx, "Trace_ConsumerSessions", "Trace_ConsumerSessions.cfg", pa, tag="selftest_a", timeout=900)
+    if ra["violated"] != "invariant:ObsAccounting":
+        raise vlib.Infra("self-test: corrupted used CU not rejected by ObsAccounting (%s)" % ra["violated"])
+    # (b) the first failing 'end' event dropped: the relay's CU can no longer be explained
+    i = next(i for i, r in enumerate(rows) if r["ev"] == "end" and r["kind"] in ("plain", "block", "report", "sync"))
+    pb = os.path.join(ctx.work, "selftest_b.ndjson")
+    vlib.write_ndjson(pb, rows[:i] + rows[i + 1:])
+    rb = vlib.tlc_trace(ctx, "TraceConf_ConsumerSessions", "TraceConf_ConsumerSessions.cfg", pb, tag="selftest_b",
+                        timeout=900, dfs=True)
+    if rb["violated"] == "invariant:NotDone":
+        raise vlib.Infra("self-test: Conf mode accepted a trace with a dropped end event")
+    ctx.cov["selftest"] = "corrupted barrier rejected by ObsAccounting; dropped end event rejected by Conf mode at line %s" % rb["reached"]
+
+
 def _repro(ctx, bad, repeat=12):
     behs = []
     for i in range(repeat):
@@ -245,6 +268,8 @@ def run(ctx):
             return
         if k == 0:
             ctx.sample(behs[0])
+            if not ctx.quick:
+                _selftest(ctx, os.path.join(ctx.work, tag + "_trace.ndjson"))
     ev = ctx.cov.get("events", {})
     ctx.cov["evaluations"] = total
     ctx.cov["distinct_nontrivial"] = ev.get("got", 0)
